@@ -112,7 +112,9 @@ namespace ST
         size_t size() const noexcept { return m_size; }
 
     private:
-        char m_buffer[64];
+        // Large enough for any double in fixed notation with the default
+        // precision: sign, 309 integer digits, '.', 6 decimals and the nul
+        char m_buffer[320];
         size_t m_size;
     };
 }
